@@ -1026,3 +1026,469 @@ Proof.
          (conj (proj2 (C16_overwrite None C16_ex.d1)) _))).
   split; [vm_compute; discriminate|]. split; vm_compute; reflexivity.
 Qed.
+
+(* ================================================================================================== *)
+(* added from Properties/C16_add.v (2026-10-01)                                              *)
+(* ================================================================================================== *)
+(* ================================================================================================== *)
+(* C16, continued: the OpenFOAM format.  DictWriter.write with the FoamFormatter (Reader.write_text true /
+   writer_run true), read back with DictReader.read.  A first write or an overwrite leaves the Foam body of the dict and
+   NO header; every append onto an existing file formats an SDict: banner, FoamFile block, rule, body.  The reader
+   returns the banner as block comment 0, the FoamFile block as DATA (an ordinary nested dict under the key FoamFile)
+   and the rule as line comment 0; the next append writes all three back in place, so the texts of the second, third,
+   ... append have the same shape: neither the banner nor the FoamFile block is ever doubled (C16_foam_state_text).
+   Underscore keys are dropped by the formatter, i.e. AFTER the merge with the existing file; as a Foam file never
+   holds an underscore key this is the same as dropping them from the new dict first (C16_foam_underscore_merge). *)
+From Coq Require Import String.
+From Coq Require Import NArith ZArith List Bool Lia.
+From DictIO Require Import Chars Str Value Scalar KeyPath SDict Layout Lexer TokParser Reader TreeSpec NativeSpec E2ESpec MiscSpec.
+From DictIO Require Import SDictProofs WriteProofs E2EKeyTok E2EFullProofs RereadPlain RereadTree FoamProofs FoamSdProofs AppendSeq AppendFoam.
+Import ListNotations.
+
+(* three source dicts (leaves still strings, as a caller passes them): overlapping nested dicts, underscore keys at the
+   top level and inside a nested dict, a string leaf with blanks, leaves that are re-typed (007 -> 7, 2.5, true), an
+   apostrophe, a list *)
+Module C16_fm.
+  Definition ks (s : string) : key := KS (of_string s).
+  Definition sv (s : string) : tree := Leaf (SStr (of_string s)).
+  Definition pth := of_string "/r/out.foam".
+  Definition d1 : list (key * tree) :=
+    [(ks "a", sv "007"); (ks "_meta", Dict [(ks "who", sv "me")]);
+     (ks "sub", Dict [(ks "x", sv "two words"); (ks "_hid", sv "1"); (ks "n", Dict [(ks "p", sv "1")])])].
+  Definition d2 : list (key * tree) :=
+    [(ks "a", sv "9"); (ks "sub", Dict [(ks "x", sv "other"); (ks "_y", sv "2"); (ks "y", sv "2.5"); (ks "n", Dict [(ks "q", sv "it's")])]); (ks "b", sv "true")].
+  Definition d3 : list (key * tree) :=
+    [(ks "sub", Dict [(ks "n", Dict [(ks "p", sv "5"); (ks "r", sv "x y")]); (ks "z", Lst [sv "1"; sv "a b"])]); (ks "_c", sv "gone"); (ks "c", sv "last")].
+  (* the first write: no header, no underscore key, double quotes *)
+  Definition t1 : str := of_string "a                             7;
+sub
+{
+    x                         ""two words"";
+    n
+    {
+        p                     1;
+    }
+}
+".
+  Definition F1 : list (key * tree) :=
+    [(ks "a", Leaf (SInt 7)); (ks "sub", Dict [(ks "x", sv "two words"); (ks "n", Dict [(ks "p", Leaf (SInt 1))])])].
+  (* after the third append: ONE banner, ONE FoamFile block *)
+  Definition t3 : str := foam_header ++ of_string "a                             7;
+sub
+{
+    x                         ""two words"";
+    n
+    {
+        p                     1;
+        q                     ""it's"";
+        r                     ""x y"";
+    }
+    y                         2.5;
+    z
+    (
+        1                 ""a b""
+    );
+}
+b                             true;
+c                             last;
+".
+  (* the first value of a, sub.x and sub.n.p wins; sub.n.q, sub.y, b come from d2; sub.n.r, sub.z, c from d3; _meta,
+     sub._hid, sub._y, _c are nowhere *)
+  Definition F3 : list (key * tree) :=
+    [(ks "a", Leaf (SInt 7));
+     (ks "sub", Dict [(ks "x", sv "two words");
+                      (ks "n", Dict [(ks "p", Leaf (SInt 1)); (ks "q", sv "it's"); (ks "r", sv "x y")]);
+                      (ks "y", Leaf (SFloat (of_string "2.5")));
+                      (ks "z", Lst [Leaf (SInt 1); sv "a b"])]);
+     (ks "b", Leaf (SBool true)); (ks "c", sv "last")].
+End C16_fm.
+
+(* (1) After an overwrite -- or a first write to a target that does not exist, in either mode -- of a dict of the Foam
+   writer domain, the text is FoamFormatter.to_string on the plain dict (no banner, no FoamFile entry) and the file read
+   back is EXACTLY the new dict without its underscore keys (dropped at every level: stripped), every leaf as the reader
+   classifies its written form:  fclassified d = reread_plain (stripped (typed d)) = stripped (classified d)
+   (C16_foam_classified).  No comment, no header entry, whatever the target held before.  Domain: parse_values succeeds;
+   unique keys; every key that does not start with an underscore is simple and its value is in the domain, every string
+   leaf free of double quotes (foam_writable_tree: the domain of C10_roundtrip; what is under an underscore key is
+   unconstrained); quoted literals at most ten keys deep, at most a million of them. *)
+Theorem C16_foam_overwrite_reads_back : forall path existing d,
+  pv_ok d = true -> wf (Dict (typed d)) = true -> foam_writable_tree (Dict (typed d)) = true ->
+  quoted_within 11 (Dict (typed d)) = true -> (Z.of_nat (nq (Dict (typed d))) <= 1000000)%Z ->
+  exists txt c,
+    write_text true path existing false d = Ok txt /\ write_text true path None true d = Ok txt /\
+    txt = foam_to_string_plain (typed d) /\
+    read_plain [(norm_path path, FNative txt)] path true true (-1)%Z = Ok (mkSD (fclassified d) [] [] [] [], c).
+Proof. exact foam_overwrite_reads_back. Qed.
+Print Assumptions C16_foam_overwrite_reads_back.
+
+Theorem C16_foam_classified : forall d, fclassified d = stripped (classified d).
+Proof. exact fclassified_stripped. Qed.
+Print Assumptions C16_foam_classified.
+
+Example C16_foam_overwrite_reads_back_nonvacuous :
+  pv_ok C16_fm.d1 = true /\ wf (Dict (typed C16_fm.d1)) = true /\ foam_writable_tree (Dict (typed C16_fm.d1)) = true /\
+  quoted_within 11 (Dict (typed C16_fm.d1)) = true /\ (Z.of_nat (nq (Dict (typed C16_fm.d1))) <= 1000000)%Z /\
+  fclassified C16_fm.d1 = C16_fm.F1 /\ stripped (classified C16_fm.d1) = C16_fm.F1 /\
+  exists c,
+    write_text true C16_fm.pth (Some (of_string "{{{ garbage")) false C16_fm.d1 = Ok C16_fm.t1 /\
+    write_text true C16_fm.pth None true C16_fm.d1 = Ok C16_fm.t1 /\
+    read_plain [(norm_path C16_fm.pth, FNative C16_fm.t1)] C16_fm.pth true true (-1)%Z = Ok (mkSD C16_fm.F1 [] [] [] [], c).
+Proof.
+  assert (H0 : pv_ok C16_fm.d1 = true) by (vm_compute; reflexivity).
+  assert (H1 : wf (Dict (typed C16_fm.d1)) = true) by (vm_compute; reflexivity).
+  assert (H2 : foam_writable_tree (Dict (typed C16_fm.d1)) = true) by (vm_compute; reflexivity).
+  assert (H3 : quoted_within 11 (Dict (typed C16_fm.d1)) = true) by (vm_compute; reflexivity).
+  assert (H4 : (Z.of_nat (nq (Dict (typed C16_fm.d1))) <= 1000000)%Z) by (vm_compute; discriminate).
+  assert (H5 : fclassified C16_fm.d1 = C16_fm.F1) by (vm_compute; reflexivity).
+  refine (conj H0 (conj H1 (conj H2 (conj H3 (conj H4 (conj H5 (conj _ _))))))); [rewrite <- C16_foam_classified; exact H5|].
+  destruct (C16_foam_overwrite_reads_back C16_fm.pth (Some (of_string "{{{ garbage")) C16_fm.d1 H0 H1 H2 H3 H4) as (txt & c & W1 & W2 & Et & Er).
+  assert (E : txt = C16_fm.t1) by (rewrite Et; vm_compute; reflexivity). subst txt. rewrite H5 in Er.
+  exists c. exact (conj W1 (conj W2 Er)).
+Qed.
+
+(* The text FoamFormatter.to_string writes for a state READ BACK from a Foam file with header (st_foam M: banner entry,
+   FoamFile dict, rule entry in front of the data M; the rule in the line comment table, the banner in the block comment
+   table): the default header ONCE, then the Foam body of the data -- the same text as for the data alone (st_plain M).
+   The banner is recognised as the file's header (C++ mark, the word OpenFOAM), so no default header is put in front of
+   it; the FoamFile dict is laid out by format_dict exactly as the header template spells it. *)
+Theorem C16_foam_state_text : forall M, ktree foam_leaf (Dict (stripped M)) = true ->
+  foam_to_string_sd (st_foam M) = foam_header ++ remove_trailing_spaces (foam_body (stripped M)) /\
+  foam_to_string_sd (st_foam M) = foam_to_string_sd (st_plain M).
+Proof.
+  intros M H. split; [exact (st_foam_text M H)|]. rewrite (fst_text true M H : foam_to_string_sd (st_foam M) = _). symmetry. exact (fst_text false M H).
+Qed.
+Print Assumptions C16_foam_state_text.
+
+Example C16_foam_state_text_nonvacuous :
+  ktree foam_leaf (Dict (stripped C16_fm.F3)) = true /\
+  sd_data (st_foam C16_fm.F3) =
+    [(KS (of_string "BLOCKCOMMENT000000"), Leaf (SStr (of_string "BLOCKCOMMENT000000"))); (k_FoamFile, foam_file_dict);
+     (KS (of_string "LINECOMMENT000000"), Leaf (SStr (of_string "LINECOMMENT000000")))] ++ C16_fm.F3 /\
+  sd_lc (st_foam C16_fm.F3) = [(0%N, foam_rule)] /\ sd_bc (st_foam C16_fm.F3) = [(0%N, foam_banner)] /\
+  foam_to_string_sd (st_foam C16_fm.F3) = C16_fm.t3 /\ foam_to_string_sd (st_plain C16_fm.F3) = C16_fm.t3.
+Proof.
+  assert (H : ktree foam_leaf (Dict (stripped C16_fm.F3)) = true) by (vm_compute; reflexivity).
+  refine (conj H (conj eq_refl (conj eq_refl (conj eq_refl _)))).
+  destruct (C16_foam_state_text C16_fm.F3 H) as [E1 E2]. rewrite <- E2.
+  assert (E : foam_header ++ remove_trailing_spaces (foam_body (stripped C16_fm.F3)) = C16_fm.t3) by (vm_compute; reflexivity).
+  rewrite E in E1. split; exact E1.
+Qed.
+
+(* Dropping the underscore keys is a homomorphism of the first-wins merge; so for a target without underscore keys
+   (every Foam file) merging and then dropping is merging the dict without its underscore keys.  An underscore key of
+   the new dict can therefore never shadow or displace an entry of the file. *)
+Theorem C16_foam_underscore_merge : forall F m,
+  stripped (merge_spec F m) = merge_spec (stripped F) (stripped m) /\
+  (us_free F = true -> stripped (merge_spec F m) = merge_spec F (stripped m)).
+Proof. intros F m. split; [exact (stripped_merge F m)|]. intros H. rewrite stripped_merge, (us_free_stripped F H). reflexivity. Qed.
+Print Assumptions C16_foam_underscore_merge.
+
+Example C16_foam_underscore_merge_nonvacuous :
+  let F := [(C16_fm.ks "a", Dict [(C16_fm.ks "x", Leaf (SInt 1))])] in
+  let m := [(C16_fm.ks "a", Dict [(C16_fm.ks "_y", Leaf (SInt 2)); (C16_fm.ks "z", Leaf (SInt 3))])] in
+  us_free F = true /\ us_free m = false /\
+  merge_spec F m = [(C16_fm.ks "a", Dict [(C16_fm.ks "x", Leaf (SInt 1)); (C16_fm.ks "_y", Leaf (SInt 2)); (C16_fm.ks "z", Leaf (SInt 3))])] /\
+  stripped (merge_spec F m) = [(C16_fm.ks "a", Dict [(C16_fm.ks "x", Leaf (SInt 1)); (C16_fm.ks "z", Leaf (SInt 3))])] /\
+  stripped (merge_spec F m) = merge_spec F (stripped m).
+Proof.
+  intros F m. assert (H : us_free F = true) by (vm_compute; reflexivity).
+  refine (conj H (conj _ (conj _ (conj _ (proj2 (C16_foam_underscore_merge F m) H))))); vm_compute; reflexivity.
+Qed.
+
+(* (2) Any number of Foam writes in append mode onto a target that does not exist at first: every write succeeds, and
+   the data read back after the last one is the fold of the first-wins recursive merge over the dicts WITHOUT their
+   underscore keys, leaves classified (fclassified) -- bare after the first write (fst_of false = st_plain), and from the
+   second write on behind the three entries the reader makes of the Foam header (fst_of true = st_foam: banner entry
+   BLOCKCOMMENT000000, the FoamFile dict as data, rule entry LINECOMMENT000000; sd_bc = [(0, banner)], sd_lc =
+   [(0, rule)]).  Invariant of the induction: the state read back is of one of the two shapes, its data part is in the
+   domain, free of underscore keys, a fixed point of reading back.
+   Domain, per dict (foam_src):  parse_values succeeds; wdom (typed d): unique keys, simple keys, writable leaves, quoted
+   literals at most ten keys deep -- of the WHOLE dict, what is under an underscore key included (it takes part in
+   SDict.merge before the formatter drops it);  foam_writable_tree: no double quote in a string leaf outside the
+   underscore keys;  no_FoamFile_key: no top-level key FoamFile (C16_foam_FoamFile_key_finding);  no_self_named
+   (fclassified d): as for the native format.  Over the list: at most a million quoted literals (nq_total). *)
+Theorem C16_foam_append_sequence : forall path w ds,
+  w_get path w = None -> ds <> [] ->
+  forallb foam_src ds = true ->
+  (Z.of_nat (nq_total ds) <= 1000000)%Z ->
+  let F := fold_left merge_spec (map fclassified ds) [] in
+  exists txt c,
+    w_get path (writer_run true w path (appends ds)) = Some txt /\
+    read_plain [(norm_path path, FNative txt)] path true true (-1)%Z = Ok (fst_of (Nat.ltb 1 (length ds)) F, c) /\
+    fdom F = true /\ us_free F = true /\ reread_plain F = F.
+Proof. exact foam_append_sequence_reads_back. Qed.
+Print Assumptions C16_foam_append_sequence.
+
+Example C16_foam_append_sequence_nonvacuous :
+  let ds := [C16_fm.d1; C16_fm.d2; C16_fm.d3] in
+  forallb foam_src ds = true /\ (Z.of_nat (nq_total ds) <= 1000000)%Z /\
+  fold_left merge_spec (map fclassified ds) [] = C16_fm.F3 /\
+  exists c,
+    w_get C16_fm.pth (writer_run true [] C16_fm.pth (appends ds)) = Some C16_fm.t3 /\
+    read_plain [(norm_path C16_fm.pth, FNative C16_fm.t3)] C16_fm.pth true true (-1)%Z = Ok (st_foam C16_fm.F3, c) /\
+    sd_data (st_foam C16_fm.F3) =
+      [(KS (of_string "BLOCKCOMMENT000000"), Leaf (SStr (of_string "BLOCKCOMMENT000000"))); (k_FoamFile, foam_file_dict);
+       (KS (of_string "LINECOMMENT000000"), Leaf (SStr (of_string "LINECOMMENT000000")))] ++ C16_fm.F3.
+Proof.
+  intros ds.
+  assert (H1 : forallb foam_src ds = true) by (vm_compute; reflexivity).
+  assert (H2 : (Z.of_nat (nq_total ds) <= 1000000)%Z) by (vm_compute; discriminate).
+  assert (H3 : fold_left merge_spec (map fclassified ds) [] = C16_fm.F3) by (vm_compute; reflexivity).
+  refine (conj H1 (conj H2 (conj H3 _))).
+  destruct (C16_foam_append_sequence C16_fm.pth [] ds eq_refl ltac:(discriminate) H1 H2) as (txt & c & E1 & E2 & _).
+  rewrite H3 in E2. change (Nat.ltb 1 (length ds)) with true in E2. cbn [fst_of] in E2.
+  assert (Et : txt = C16_fm.t3).
+  { assert (Ew : w_get C16_fm.pth (writer_run true [] C16_fm.pth (appends ds)) = Some C16_fm.t3) by (vm_compute; reflexivity).
+    rewrite Ew in E1. injection E1 as <-. reflexivity. }
+  subst txt. exists c. refine (conj E1 (conj E2 _)). reflexivity.
+Qed.
+
+(* (2), mixed sequences: append and overwrite steps in any order; the specification fold MiscSpec.spec_writes over the
+   dicts without underscore keys, leaves classified; hdr_run says whether the header entries are there (exactly when
+   the last write was an append onto an existing file) *)
+Theorem C16_foam_write_sequence : forall path w ops,
+  w_get path w = None -> ops <> [] ->
+  forallb (fun op => foam_src (snd op)) ops = true ->
+  (Z.of_nat (nq_total (map snd ops)) <= 1000000)%Z ->
+  exists txt F c,
+    w_get path (writer_run true w path ops) = Some txt /\
+    spec_writes (fspec_ops ops) None = Some F /\
+    read_plain [(norm_path path, FNative txt)] path true true (-1)%Z = Ok (fst_of (hdr_run ops None false) F, c) /\
+    fdom F = true /\ us_free F = true /\ reread_plain F = F.
+Proof. exact foam_write_sequence_reads_back. Qed.
+Print Assumptions C16_foam_write_sequence.
+
+Example C16_foam_write_sequence_nonvacuous :
+  let ops := [(true, C16_fm.d1); (true, C16_fm.d2); (false, C16_fm.d3); (true, C16_fm.d1)] in
+  forallb (fun op => foam_src (snd op)) ops = true /\ (Z.of_nat (nq_total (map snd ops)) <= 1000000)%Z /\
+  hdr_run ops None false = true /\
+  exists txt F c,
+    w_get C16_fm.pth (writer_run true [] C16_fm.pth ops) = Some txt /\
+    F = merge_spec (fclassified C16_fm.d3) (fclassified C16_fm.d1) /\
+    read_plain [(norm_path C16_fm.pth, FNative txt)] C16_fm.pth true true (-1)%Z = Ok (st_foam F, c) /\
+    get_dpath (Dict F) [C16_fm.ks "sub"; C16_fm.ks "n"; C16_fm.ks "p"] = Some (Leaf (SInt 5)) /\
+    get_dpath (Dict F) [C16_fm.ks "sub"; C16_fm.ks "y"] = None /\
+    get_dpath (Dict F) [C16_fm.ks "a"] = Some (Leaf (SInt 7)).
+Proof.
+  intros ops.
+  assert (H1 : forallb (fun op => foam_src (snd op)) ops = true) by (vm_compute; reflexivity).
+  assert (H2 : (Z.of_nat (nq_total (map snd ops)) <= 1000000)%Z) by (vm_compute; discriminate).
+  assert (H3 : hdr_run ops None false = true) by (vm_compute; reflexivity).
+  refine (conj H1 (conj H2 (conj H3 _))).
+  destruct (C16_foam_write_sequence C16_fm.pth [] ops eq_refl ltac:(discriminate) H1 H2) as (txt & F & c & E1 & E2 & E3 & _).
+  rewrite H3 in E3. cbn [fst_of] in E3.
+  assert (EF : F = merge_spec (fclassified C16_fm.d3) (fclassified C16_fm.d1)).
+  { cbn [ops fspec_ops map spec_writes fold_left spec_write fst snd] in E2. injection E2 as <-. reflexivity. }
+  exists txt, F, c. refine (conj E1 (conj EF (conj E3 _))). rewrite EF. vm_compute. repeat split; reflexivity.
+Qed.
+
+(* (3) Monotonicity over a whole Foam sequence, in the words of the property: appends ds1 (at least one), then d, then
+   ds2.  Every leaf path of the state read back after ds1 -- the header entries and the leaves of the FoamFile dict
+   included -- is in the state read back after the last write, with the same value; every key path of d (underscore keys
+   dropped, leaves classified) that is absent from the earlier state arrives with the value it has in d when that value
+   is a leaf. *)
+Theorem C16_foam_append_sequence_monotone : forall path w ds1 d ds2,
+  w_get path w = None -> ds1 <> [] ->
+  forallb foam_src (ds1 ++ d :: ds2) = true ->
+  (Z.of_nat (nq_total (ds1 ++ d :: ds2)) <= 1000000)%Z ->
+  exists txt1 txt3 s1 s3 c1 c3,
+    w_get path (writer_run true w path (appends ds1)) = Some txt1 /\
+    w_get path (writer_run true (writer_run true w path (appends ds1)) path (appends (d :: ds2))) = Some txt3 /\
+    read_plain [(norm_path path, FNative txt1)] path true true (-1)%Z = Ok (s1, c1) /\
+    read_plain [(norm_path path, FNative txt3)] path true true (-1)%Z = Ok (s3, c3) /\
+    (forall p v, get_dpath (Dict (sd_data s1)) p = Some (Leaf v) -> get_dpath (Dict (sd_data s3)) p = Some (Leaf v)) /\
+    (forall p v, get_dpath (Dict (fclassified d)) p = Some (Leaf v) -> addable (Dict (sd_data s1)) p = true ->
+                 get_dpath (Dict (sd_data s3)) p = Some (Leaf v)).
+Proof. exact foam_append_sequence_monotone. Qed.
+Print Assumptions C16_foam_append_sequence_monotone.
+
+Example C16_foam_append_sequence_monotone_nonvacuous :
+  let ds1 := [C16_fm.d1] in let d := C16_fm.d2 in let ds2 := [C16_fm.d3] in
+  forallb foam_src (ds1 ++ d :: ds2) = true /\ (Z.of_nat (nq_total (ds1 ++ d :: ds2)) <= 1000000)%Z /\
+  exists s1 s3 c1 c3 txt1,
+    w_get C16_fm.pth (writer_run true [] C16_fm.pth (appends ds1)) = Some txt1 /\
+    read_plain [(norm_path C16_fm.pth, FNative txt1)] C16_fm.pth true true (-1)%Z = Ok (s1, c1) /\
+    read_plain [(norm_path C16_fm.pth, FNative C16_fm.t3)] C16_fm.pth true true (-1)%Z = Ok (s3, c3) /\
+    (* sub.x was in the file before d2 ('two words'; d2 offers 'other'): kept *)
+    get_dpath (Dict (sd_data s1)) [C16_fm.ks "sub"; C16_fm.ks "x"] = Some (C16_fm.sv "two words") /\
+    get_dpath (Dict (sd_data s3)) [C16_fm.ks "sub"; C16_fm.ks "x"] = Some (C16_fm.sv "two words") /\
+    (* sub.y is new in d2 and absent before: added *)
+    addable (Dict (sd_data s1)) [C16_fm.ks "sub"; C16_fm.ks "y"] = true /\
+    get_dpath (Dict (sd_data s3)) [C16_fm.ks "sub"; C16_fm.ks "y"] = Some (Leaf (SFloat (of_string "2.5"))) /\
+    (* sub._y of d2 is no path of the dict the theorem speaks about *)
+    get_dpath (Dict (fclassified d)) [C16_fm.ks "sub"; C16_fm.ks "_y"] = None.
+Proof.
+  intros ds1 d ds2.
+  assert (H1 : forallb foam_src (ds1 ++ d :: ds2) = true) by (vm_compute; reflexivity).
+  assert (H2 : (Z.of_nat (nq_total (ds1 ++ d :: ds2)) <= 1000000)%Z) by (vm_compute; discriminate).
+  refine (conj H1 (conj H2 _)).
+  destruct (C16_foam_append_sequence_monotone C16_fm.pth [] ds1 d ds2 eq_refl ltac:(discriminate) H1 H2)
+    as (txt1 & txt3 & s1 & s3 & c1 & c3 & E1 & E3 & R1 & R3 & Hkeep & Hadd).
+  assert (Et3 : txt3 = C16_fm.t3).
+  { assert (Ew : w_get C16_fm.pth (writer_run true (writer_run true [] C16_fm.pth (appends ds1)) C16_fm.pth (appends (d :: ds2))) = Some C16_fm.t3) by (vm_compute; reflexivity).
+    rewrite Ew in E3. injection E3 as <-. reflexivity. }
+  subst txt3.
+  assert (Es1 : sd_data s1 = C16_fm.F1).
+  { assert (Ew : w_get C16_fm.pth (writer_run true [] C16_fm.pth (appends ds1)) = Some C16_fm.t1) by (vm_compute; reflexivity).
+    rewrite Ew in E1. injection E1 as <-.
+    assert (Er : exists c, read_plain [(norm_path C16_fm.pth, FNative C16_fm.t1)] C16_fm.pth true true (-1)%Z = Ok (mkSD C16_fm.F1 [] [] [] [], c)).
+    { destruct C16_foam_overwrite_reads_back_nonvacuous as (_ & _ & _ & _ & _ & _ & _ & c & _ & _ & Er). exists c. exact Er. }
+    destruct Er as [c Er]. rewrite Er in R1. injection R1 as <- _. reflexivity. }
+  exists s1, s3, c1, c3, txt1. refine (conj E1 (conj R1 (conj R3 _))).
+  assert (G1 : get_dpath (Dict (sd_data s1)) [C16_fm.ks "sub"; C16_fm.ks "x"] = Some (C16_fm.sv "two words")) by (rewrite Es1; vm_compute; reflexivity).
+  assert (G2 : addable (Dict (sd_data s1)) [C16_fm.ks "sub"; C16_fm.ks "y"] = true) by (rewrite Es1; vm_compute; reflexivity).
+  refine (conj G1 (conj (Hkeep _ _ G1) (conj G2 (conj (Hadd _ _ _ G2) _)))); vm_compute; reflexivity.
+Qed.
+
+(* ... and when the sequence begins with an overwrite, whatever the target held *)
+Theorem C16_foam_write_sequence_after_overwrite : forall path w d ops,
+  forallb (fun op => foam_src (snd op)) ((false, d) :: ops) = true ->
+  (Z.of_nat (nq_total (map snd ((false, d) :: ops))) <= 1000000)%Z ->
+  exists txt F c,
+    w_get path (writer_run true w path ((false, d) :: ops)) = Some txt /\
+    spec_writes (fspec_ops ops) (Some (fclassified d)) = Some F /\
+    read_plain [(norm_path path, FNative txt)] path true true (-1)%Z = Ok (fst_of (hdr_run ops (Some []) false) F, c) /\
+    fdom F = true /\ us_free F = true /\ reread_plain F = F.
+Proof. exact foam_write_sequence_after_overwrite. Qed.
+Print Assumptions C16_foam_write_sequence_after_overwrite.
+
+Example C16_foam_write_sequence_after_overwrite_nonvacuous :
+  let w := [(C16_fm.pth, of_string "{{{ garbage")] in
+  let ops := [(true, C16_fm.d2); (true, C16_fm.d3)] in
+  forallb (fun op => foam_src (snd op)) ((false, C16_fm.d1) :: ops) = true /\
+  (Z.of_nat (nq_total (map snd ((false, C16_fm.d1) :: ops))) <= 1000000)%Z /\
+  exists c,
+    w_get C16_fm.pth (writer_run true w C16_fm.pth ((false, C16_fm.d1) :: ops)) = Some C16_fm.t3 /\
+    read_plain [(norm_path C16_fm.pth, FNative C16_fm.t3)] C16_fm.pth true true (-1)%Z = Ok (st_foam C16_fm.F3, c).
+Proof.
+  intros w ops.
+  assert (H1 : forallb (fun op => foam_src (snd op)) ((false, C16_fm.d1) :: ops) = true) by (vm_compute; reflexivity).
+  assert (H2 : (Z.of_nat (nq_total (map snd ((false, C16_fm.d1) :: ops))) <= 1000000)%Z) by (vm_compute; discriminate).
+  refine (conj H1 (conj H2 _)).
+  destruct (C16_foam_write_sequence_after_overwrite C16_fm.pth w C16_fm.d1 ops H1 H2) as (txt & F & c & E1 & E2 & E3 & _).
+  assert (EF : F = C16_fm.F3).
+  { assert (Es : spec_writes (fspec_ops ops) (Some (fclassified C16_fm.d1)) = Some C16_fm.F3) by (vm_compute; reflexivity).
+    rewrite Es in E2. injection E2 as <-. reflexivity. }
+  subst F. change (hdr_run ops (Some []) false) with true in E3. cbn [fst_of] in E3.
+  assert (Et : txt = C16_fm.t3).
+  { assert (Ew : w_get C16_fm.pth (writer_run true w C16_fm.pth ((false, C16_fm.d1) :: ops)) = Some C16_fm.t3) by (vm_compute; reflexivity).
+    rewrite Ew in E1. injection E1 as <-. reflexivity. }
+  subst txt. exists c. exact (conj E1 E3).
+Qed.
+
+(* FINDING (excluded by no_FoamFile_key; the real library behaves the same).  A source dict with a top-level key
+   FoamFile: the first write leaves it as data; the first append onto the file puts the default header in front, so the
+   text holds TWO FoamFile blocks; reading that back, the later (the user's) replaces the header's -- version 2.0,
+   format, class, object are gone -- and the next append writes the user's dict in the place of the FoamFile block of
+   the header.  No user data is lost, but the state is not of the shape st_foam and the file has no valid OpenFOAM
+   FoamFile entry any more. *)
+Example C16_foam_FoamFile_key_finding :
+  let e1 := [(k_FoamFile, Dict [(C16_fm.ks "version", Leaf (SInt 3)); (C16_fm.ks "mine", Leaf (SInt 1))]); (C16_fm.ks "a", Leaf (SInt 1))] in
+  let e2 := [(C16_fm.ks "b", Leaf (SInt 2))] in
+  foam_src e1 = false /\ pv_ok e1 && wdom (typed e1) && foam_writable_tree (Dict (typed e1)) && no_self_named (fclassified e1) = true /\
+  foam_src e2 = true /\
+  (* after the second write: two FoamFile blocks in the text *)
+  w_get C16_fm.pth (writer_run true [] C16_fm.pth (appends [e1; e2])) =
+    Some (foam_header ++ of_string "FoamFile
+{
+    version                   3;
+    mine                      1;
+}
+a                             1;
+b                             2;
+") /\
+  (* read back: the user's FoamFile dict has replaced the header's *)
+  (exists s c, match w_get C16_fm.pth (writer_run true [] C16_fm.pth (appends [e1; e2])) with
+               | Some t => read_plain [(norm_path C16_fm.pth, FNative t)] C16_fm.pth true true (-1)%Z | None => Raise 0%N end = Ok (s, c) /\
+     get_dpath (Dict (sd_data s)) [k_FoamFile; C16_fm.ks "version"] = Some (Leaf (SInt 3)) /\
+     get_dpath (Dict (sd_data s)) [k_FoamFile; C16_fm.ks "format"] = None /\
+     get_dpath (Dict (sd_data s)) [C16_fm.ks "a"] = Some (Leaf (SInt 1)) /\
+     get_dpath (Dict (sd_data s)) [C16_fm.ks "b"] = Some (Leaf (SInt 2))) /\
+  (* after the third write: the user's dict in the header position *)
+  w_get C16_fm.pth (writer_run true [] C16_fm.pth (appends [e1; e2; e2])) =
+    Some (foam_banner ++ of_string "
+FoamFile
+{
+    version                   3;
+    mine                      1;
+}
+" ++ foam_rule ++ of_string "
+a                             1;
+b                             2;
+").
+Proof.
+  intros e1 e2. split; [vm_compute; reflexivity|]. split; [vm_compute; reflexivity|]. split; [vm_compute; reflexivity|].
+  split; [vm_compute; reflexivity|]. split; [|vm_compute; reflexivity].
+  eexists. eexists. split; [vm_compute; reflexivity|]. vm_compute. repeat split; reflexivity.
+Qed.
+
+(* ---- DictWriter.write for an SDict source (Parse.write_sd, FoamFormatter) and DictReader.read with all options ---- *)
+From DictIO Require Parse.
+
+(* (1) for an SDict source without comments, in overwrite mode or onto a target that does not exist: an SDict is always
+   formatted with the default header, so the text is the header followed by the plain Foam text, and the state read
+   back (fresh counter) has the header entries in front already after the first write *)
+Theorem C16_foam_overwrite_reads_back_sd : forall fs target ap d,
+  pv_ok d = true -> wf (Dict (typed d)) = true -> foam_writable_tree (Dict (typed d)) = true -> no_FoamFile_key (typed d) = true ->
+  quoted_within 11 (Dict (typed d)) = true -> (Z.of_nat (nq (Dict (typed d))) <= 1000000)%Z ->
+  (ap = false \/ fs_lookup (norm_path target) fs = None) ->
+  exists txt c',
+    Parse.write_sd fs true target ap false (st_plain d) (-1)%Z = Some (Ok (txt, (-1)%Z)) /\
+    txt = foam_header ++ foam_to_string_plain (typed d) /\
+    Parse.read_opts [(norm_path target, FNative txt)] target true false true [] (-1)%Z = Some (Ok (st_foam (fclassified d), c')).
+Proof. exact foam_overwrite_reads_back_sd. Qed.
+Print Assumptions C16_foam_overwrite_reads_back_sd.
+
+(* (2), one step, for an SDict source: an append onto a target whose read gives a state of either shape (data part in
+   the domain, free of underscore keys, a fixed point of reading back, no self-named entry): the text is the header and
+   the Foam body of the merged data, the state read back is st_foam of the first-wins merge, and the invariant holds
+   again (so the step can be iterated) *)
+Theorem C16_foam_append_sd_step : forall fs target u hd F c0 d,
+  fs_lookup (norm_path target) fs = Some u ->
+  Parse.read_opts fs target true false true [] (-1)%Z = Some (Ok (fst_of hd F, c0)) ->
+  fdom F = true -> us_free F = true -> reread_plain F = F -> no_self_named F = true ->
+  foam_src d = true -> (Z.of_nat (nq (Dict F) + nq (Dict (typed d))) <= 1000000)%Z ->
+  exists txt c',
+    Parse.write_sd fs true target true false (st_plain d) (-1)%Z = Some (Ok (txt, c0)) /\
+    txt = foam_header ++ remove_trailing_spaces (foam_body (merge_spec F (stripped (typed d)))) /\
+    Parse.read_opts [(norm_path target, FNative txt)] target true false true [] (-1)%Z =
+      Some (Ok (st_foam (merge_spec F (fclassified d)), c')) /\
+    fdom (merge_spec F (fclassified d)) = true /\ us_free (merge_spec F (fclassified d)) = true /\
+    reread_plain (merge_spec F (fclassified d)) = merge_spec F (fclassified d) /\ no_self_named (merge_spec F (fclassified d)) = true.
+Proof. exact foam_append_sd_step. Qed.
+Print Assumptions C16_foam_append_sd_step.
+
+Example C16_foam_sd_nonvacuous :
+  exists txt1 txt2 c1 c2,
+    (* first write of d1 (append mode, target absent) *)
+    Parse.write_sd [] true C16_fm.pth true false (st_plain C16_fm.d1) (-1)%Z = Some (Ok (txt1, (-1)%Z)) /\
+    txt1 = foam_header ++ C16_fm.t1 /\
+    Parse.read_opts [(norm_path C16_fm.pth, FNative txt1)] C16_fm.pth true false true [] (-1)%Z = Some (Ok (st_foam C16_fm.F1, c1)) /\
+    (* append of d2 onto it *)
+    Parse.write_sd [(norm_path C16_fm.pth, FNative txt1)] true C16_fm.pth true false (st_plain C16_fm.d2) (-1)%Z = Some (Ok (txt2, c1)) /\
+    Parse.read_opts [(norm_path C16_fm.pth, FNative txt2)] C16_fm.pth true false true [] (-1)%Z =
+      Some (Ok (st_foam (merge_spec C16_fm.F1 (fclassified C16_fm.d2)), c2)) /\
+    get_dpath (Dict (merge_spec C16_fm.F1 (fclassified C16_fm.d2))) [C16_fm.ks "sub"; C16_fm.ks "x"] = Some (C16_fm.sv "two words") /\
+    get_dpath (Dict (merge_spec C16_fm.F1 (fclassified C16_fm.d2))) [C16_fm.ks "sub"; C16_fm.ks "y"] = Some (Leaf (SFloat (of_string "2.5"))) /\
+    get_dpath (Dict (merge_spec C16_fm.F1 (fclassified C16_fm.d2))) [C16_fm.ks "sub"; C16_fm.ks "_y"] = None.
+Proof.
+  assert (A0 : pv_ok C16_fm.d1 = true) by (vm_compute; reflexivity).
+  assert (A1 : wf (Dict (typed C16_fm.d1)) = true) by (vm_compute; reflexivity).
+  assert (A2 : foam_writable_tree (Dict (typed C16_fm.d1)) = true) by (vm_compute; reflexivity).
+  assert (A3 : no_FoamFile_key (typed C16_fm.d1) = true) by (vm_compute; reflexivity).
+  assert (A4 : quoted_within 11 (Dict (typed C16_fm.d1)) = true) by (vm_compute; reflexivity).
+  assert (A5 : (Z.of_nat (nq (Dict (typed C16_fm.d1))) <= 1000000)%Z) by (vm_compute; discriminate).
+  destruct (C16_foam_overwrite_reads_back_sd [] C16_fm.pth true C16_fm.d1 A0 A1 A2 A3 A4 A5 (or_intror eq_refl)) as (txt1 & c1 & W1 & Et1 & R1).
+  assert (EF : fclassified C16_fm.d1 = C16_fm.F1) by (vm_compute; reflexivity). rewrite EF in R1.
+  assert (Et : txt1 = foam_header ++ C16_fm.t1) by (rewrite Et1; vm_compute; reflexivity).
+  assert (B0 : fs_lookup (norm_path C16_fm.pth) [(norm_path C16_fm.pth, FNative txt1)] = Some (FNative txt1)) by (cbn [fs_lookup]; rewrite str_eqb_refl'; reflexivity).
+  assert (B1 : fdom C16_fm.F1 = true) by (vm_compute; reflexivity).
+  assert (B2 : us_free C16_fm.F1 = true) by (vm_compute; reflexivity).
+  assert (B3 : reread_plain C16_fm.F1 = C16_fm.F1) by (vm_compute; reflexivity).
+  assert (B4 : no_self_named C16_fm.F1 = true) by (vm_compute; reflexivity).
+  assert (B5 : foam_src C16_fm.d2 = true) by (vm_compute; reflexivity).
+  assert (B6 : (Z.of_nat (nq (Dict C16_fm.F1) + nq (Dict (typed C16_fm.d2))) <= 1000000)%Z) by (vm_compute; discriminate).
+  destruct (C16_foam_append_sd_step [(norm_path C16_fm.pth, FNative txt1)] C16_fm.pth (FNative txt1) true C16_fm.F1 c1 C16_fm.d2 B0 R1 B1 B2 B3 B4 B5 B6)
+    as (txt2 & c2 & W2 & _ & R2 & _).
+  exists txt1, txt2, c1, c2. refine (conj W1 (conj Et (conj R1 (conj W2 (conj R2 _))))). vm_compute. repeat split; reflexivity.
+Qed.
